@@ -45,7 +45,9 @@ def replay(prop, path):
         v.sample({"replayed": str(path)})
         v.finish()
         return
-    if any(e.get("ev", "").startswith("lc.") for e in vlib.read_ndjson(path)):
+    if any(e.get("ev", "").startswith("ho.") for e in vlib.read_ndjson(path)):
+        sc.validate(v, "Trace_HandOff", (vlib.SPEC / "Trace_HandOff.cfg").read_text(), path, "replay")
+    elif any(e.get("ev", "").startswith("lc.") for e in vlib.read_ndjson(path)):
         sc.validate(v, "Trace_FrpsLifecycle", (vlib.SPEC / "Trace_FrpsLifecycle.cfg").read_text(), path, "replay")
     else:
         sc.validate(v, "Trace_Routes", (vlib.SPEC / "Trace_Routes.cfg").read_text(), path, "replay")
